@@ -6,6 +6,7 @@ package explore
 import (
 	"bytes"
 	"fmt"
+	"runtime/debug"
 	"io"
 	"log"
 	"sort"
@@ -199,7 +200,11 @@ type Sess struct {
 	Steps int
 	// options
 	SkipStructure bool
-	RotateSeed    bool // every Open is given a different (deterministic) answer should it draw a fresh hash seed
+	BaseName      string
+	quietPanic    bool // do not report panics to PanicSink (the caller turns the returned error into its own violation)
+	History       []Op   // letters applied so far (for panic reports)
+	Panicked      string // non-empty once an API call panicked
+	RotateSeed    bool   // every Open is given a different (deterministic) answer should it draw a fresh hash seed
 	nOpen         int
 	// observations of the last Apply
 	LastCompact    pogreb.CompactionResult
@@ -225,7 +230,45 @@ func (s *Sess) NextValue() string {
 }
 
 // OpenDB opens the database on the session's file system.
+// PanicSink, when set (by the worker), receives every panic raised by the code under test during an
+// API call made through a Sess: a panic is a violation of whatever property is being checked, never a
+// harness error.
+var PanicSink func(key, what string, replay map[string]interface{})
+
+// PanicError is the error returned for an API call that panicked.
+type PanicError struct{ Msg string }
+
+func (e *PanicError) Error() string { return "panic: " + e.Msg }
+
+// protect runs f and converts a panic of the code under test into a PanicError (and reports it).
+func (s *Sess) protect(what string, f func() error) (err error) {
+	defer func() {
+		if r := recover(); r != nil {
+			if he, ok := r.(harnessErr); ok {
+				panic(he)
+			}
+			msg := panicSummary(fmt.Sprintf("%v\n%s", r, debug.Stack()))
+			s.Panicked = what + ": " + msg
+			err = &PanicError{Msg: s.Panicked}
+			if PanicSink != nil && !s.quietPanic {
+				var w []string
+				for _, o := range s.History {
+					w = append(w, o.String())
+				}
+				PanicSink(fmt.Sprintf("panic base=%s cfg=%s word=%s at=%s", s.BaseName, s.Cfg.Name, strings.Join(w, " "), what),
+					fmt.Sprintf("base %s/%s after [%s]: %s panicked: %s", s.BaseName, s.Cfg.Name, strings.Join(w, ", "), what, msg),
+					map[string]interface{}{"kind": "panic", "base": s.BaseName, "cfg": s.Cfg.Name, "word": w, "at": what, "observed": msg})
+			}
+		}
+	}()
+	return f()
+}
+
 func (s *Sess) OpenDB() error {
+	return s.protect("Open", s.openDB)
+}
+
+func (s *Sess) openDB() error {
 	if s.RotateSeed {
 		s.nOpen++
 		PinSeed(s.Seed + uint32(s.nOpen)*0x9E3779B9)
@@ -241,6 +284,11 @@ func (s *Sess) OpenDB() error {
 // Apply executes one mutating letter on the database and the model. It returns the error of the
 // API call (the caller decides whether an error is a violation).
 func (s *Sess) Apply(o Op) error {
+	s.History = append(s.History, o)
+	return s.protect(o.String(), func() error { return s.apply(o) })
+}
+
+func (s *Sess) apply(o Op) error {
 	s.Steps++
 	s.FS.Tag = s.Steps
 	switch o.Kind {
@@ -388,10 +436,19 @@ func (s *Sess) CheckStructure() string {
 
 // Check runs the complete per-step oracle.
 func (s *Sess) Check() string {
-	if msg := s.CheckReads(); msg != "" {
-		return msg
+	if s.Panicked != "" {
+		return "an API call panicked: " + s.Panicked
 	}
-	return s.CheckStructure()
+	msg := ""
+	if err := s.protect("reads", func() error {
+		if msg = s.CheckReads(); msg == "" {
+			msg = s.CheckStructure()
+		}
+		return nil
+	}); err != nil {
+		return err.Error()
+	}
+	return msg
 }
 
 // StructuralInvariant checks the index dump against the segment files (see DESIGN.md 2.4).
